@@ -1,0 +1,11 @@
+//go:build verif
+
+package aggoracle
+
+import "context"
+
+// Verification hook (build tag verif): one real iteration of the Start loop. The loop's state cell
+// (blockNumToFetch) is owned by the caller, exactly as Start owns it. No logic lives here.
+func (a *AggOracle) VerifTick(ctx context.Context, blockNumToFetch *uint64) error {
+	return a.processLatestGER(ctx, blockNumToFetch)
+}
